@@ -248,20 +248,37 @@ Proof.
   destruct H as [H|H]; [now left|right; now apply IH].
 Qed.
 
-Lemma quiet_close d0 s s' : quiet d0 s -> step (Close tmp) s = Some s' -> quiet d0 s'.
+(* calls that only concern the temporary file *)
+Definition tmp_only (o : op) : Prop :=
+  o = Close tmp \/ o = Flush tmp \/ o = Fsync tmp \/ (exists k, o = FlushShort tmp k) \/ (exists b, o = Write tmp b).
+
+Lemma In_fset p q b c l : In (p, b) (fset q c l) -> p = q \/ In (p, b) l.
+Proof. unfold fset. intros [H|H]; [left; now inversion H|right; eapply In_fdel; eassumption]. Qed.
+
+Lemma quiet_step d0 o s s' : tmp_only o -> quiet d0 s -> step o s = Some s' -> quiet d0 s'.
 Proof.
-  intros [Hd [Hb Ht]] H. simpl in H. destruct (lookup tmp (bufs s)) as [b|]; [|discriminate].
-  inversion H; subst s'. clear H. repeat split; simpl.
-  - rewrite lookup_fappend_other by assumption. assumption.
-  - intros p b' Hin. apply (Hb p b'). eapply In_fdel; eassumption.
-  - assumption.
+  intros T [Hd [Hb Ht]] H.
+  destruct T as [->|[->|[->|[[k ->]|[b0 ->]]]]]; simpl in H;
+    destruct (lookup tmp (bufs s)) as [b|]; try discriminate; inversion H; subst s'; clear H;
+    repeat split; simpl; try assumption;
+    try (rewrite lookup_fappend_other by assumption; assumption);
+    try (intros p b' Hin; first [apply In_fdel in Hin; now apply (Hb p b')
+                                | apply In_fset in Hin as [->|Hin]; [reflexivity|now apply (Hb p b')]]).
 Qed.
 
-(* any prefix of the protocol, optionally followed by the close of the temporary file: the
-   storage file is as before or completely new at every crash point *)
-Theorem prefix_then_close_atomic chunks d0 pre post extra c :
+Lemma quiet_run d0 : forall extra s, Forall tmp_only extra -> quiet d0 s -> Forall (quiet d0) (run extra s).
+Proof.
+  induction extra as [|o extra IH]; intros s F Q; simpl; [constructor|].
+  inversion F; subst. destruct (step o s) as [s'|] eqn:St; [|constructor].
+  pose proof (quiet_step d0 o s s' H1 Q St) as Q'. constructor; [assumption|now apply IH].
+Qed.
+
+(* any prefix of the protocol followed by calls that only concern the temporary file (the
+   failing flush, the close of the `with` block): the storage file is as before or
+   completely new at every crash point.  The rename is in no such list. *)
+Theorem prefix_then_tmp_calls_atomic chunks d0 pre post extra c :
   save_ops tmp target chunks = pre ++ post ->
-  extra = [] \/ extra = [Close tmp] ->
+  Forall tmp_only extra ->
   In c (crash_states (pre ++ extra) (init d0)) ->
   lookup target c = lookup target d0 \/ lookup target c = Some (concat chunks).
 Proof.
@@ -269,25 +286,50 @@ Proof.
   assert (P : forall c', In c' (crash_states pre (init d0)) ->
               lookup target c' = lookup target d0 \/ lookup target c' = Some (concat chunks)).
   { intros c' H. apply (tmp_rename_atomic chunks d0). rewrite Split. now apply crash_states_prefix. }
-  destruct Hx as [->| ->]; [rewrite app_nil_r in Hc; now apply P|].
   apply crash_states_app in Hc as [Hc|(s' & Hex & Hc)]; [now apply P|].
-  unfold crash_states in Hc. cbn [run flat_map] in Hc.
+  unfold crash_states in Hc. cbn [flat_map] in Hc.
   apply in_app_iff in Hc as [Hc|Hc].
   - apply P. unfold crash_states. apply in_flat_map. exists s'. split; [now apply exec_in_run|assumption].
-  - destruct (step (Close tmp) s') as [s''|] eqn:St; [|contradiction].
-    cbn [run flat_map] in Hc. rewrite app_nil_r in Hc.
-    (* s' is one of the states of the complete run *)
+  - (* s' is one of the states of the complete run *)
     destruct (save_run chunks d0) as (mids & sf & Hrun & _ & Hq & _ & _ & Hb & _).
     assert (Hin : In s' (init d0 :: mids ++ [sf])).
     { rewrite <- Hrun, Split, run_app. pose proof (exec_in_run pre (init d0) s' Hex) as X.
       destruct X as [X|X]; [now left|right]. apply in_app_iff. now left. }
-    destruct Hin as [<-|Hin].
-    + left. apply (quiet_safe d0 s''); [|assumption]. apply (quiet_close d0 (init d0)); [|assumption].
-      split; [reflexivity|]. split; [|reflexivity]. intros p b [].
-    + apply in_app_iff in Hin as [Hin|[<-|[]]].
-      * left. apply (quiet_safe d0 s''); [|assumption]. apply (quiet_close d0 s'); [|assumption].
-        rewrite Forall_forall in Hq. now apply Hq.
-      * simpl in St. rewrite Hb in St. discriminate.
+    apply in_flat_map in Hc as (s'' & Hs'' & Hc).
+    assert (Q : quiet d0 s' \/ s' = sf).
+    { destruct Hin as [<-|Hin].
+      - left. split; [reflexivity|]. split; [|reflexivity]. intros p b [].
+      - apply in_app_iff in Hin as [Hin|[<-|[]]]; [left|now right].
+        rewrite Forall_forall in Hq. now apply Hq. }
+    destruct Q as [Q| ->].
+    + left. apply (quiet_safe d0 s''); [|assumption].
+      pose proof (quiet_run d0 extra s' Hx Q) as F. rewrite Forall_forall in F. now apply F.
+    + (* after the rename nothing is open: every call in extra raises at once *)
+      destruct extra as [|o extra]; [contradiction|]. simpl in Hs''.
+      inversion Hx as [|? ? To _]; subst.
+      assert (N : step o sf = None).
+      { destruct To as [->|[->|[->|[[k ->]|[b0 ->]]]]]; simpl; now rewrite Hb. }
+      rewrite N in Hs''. contradiction.
+Qed.
+
+Theorem prefix_then_close_atomic chunks d0 pre post extra c :
+  save_ops tmp target chunks = pre ++ post ->
+  extra = [] \/ extra = [Close tmp] ->
+  In c (crash_states (pre ++ extra) (init d0)) ->
+  lookup target c = lookup target d0 \/ lookup target c = Some (concat chunks).
+Proof.
+  intros Split Hx. apply (prefix_then_tmp_calls_atomic chunks d0 pre post); [assumption|].
+  destruct Hx as [->| ->]; repeat constructor.
+Qed.
+
+Theorem short_write_atomic chunks d0 f k c :
+  In c (crash_states (short_ops tmp f k (save_ops tmp target chunks)) (init d0)) ->
+  lookup target c = lookup target d0 \/ lookup target c = Some (concat chunks).
+Proof.
+  unfold short_ops.
+  apply (prefix_then_tmp_calls_atomic chunks d0 (firstn f (save_ops tmp target chunks))
+           (skipn f (save_ops tmp target chunks))); [now rewrite firstn_skipn|].
+  constructor; [right; right; right; left; now exists k|]. constructor; [now left|constructor].
 Qed.
 
 Theorem failed_save_atomic chunks d0 f c :
